@@ -357,3 +357,433 @@ Proof.
     + apply rctx_top.
     + intro; congruence.
 Qed.
+
+Lemma p_parse_accept b s p' s' : p_parse cparser0 s b = Ok (p', s', nilE) ->
+  exists e, feed (2 * length b + 2) cparser0 s b = Ok (p', s', e) /\
+            (if isnil e then finalize p' else e) = nilE.
+Proof.
+  unfold p_parse. intro H.
+  destruct (feed (2 * length b + 2) cparser0 s b) as [[[p1 s1] e1]| | |]; try discriminate.
+  injection H as -> -> He. exists e1. split; [reflexivity|exact He].
+Qed.
+
+(* ---------- C09 for every accepted input ---------- *)
+(* The parser accepts only what the reference accepts: whenever whole-buffer
+   Parse returns nil, the input is a sequence of items of the supported subset
+   (the reference decodes all of it), the events are the concatenation of one
+   well-formed tree per top-level item and these trees denote the reference
+   values.  (The hypothesis [b <> []] of the task statement is not needed: for
+   the empty input ts = [].) *)
+Theorem C09_cbor_accepted_wf : forall b evs, all_bytes b = true -> (zlen b <=? MaxInt64) = true ->
+  run_parse None b = Ok (evs, nilE) ->
+  exists ts, evs = flat_map flatten ts /\ forallb wf_tree ts = true /\
+             cbor_decode_all (S (length b)) b = Some (map (fun t => cv (value_of t)) ts).
+Proof.
+  intros b evs Hb Hsz H. unfold run_parse in H.
+  destruct (p_parse cparser0 (sink0 None) b) as [[[p1 s1] e1]| | |] eqn:E; try discriminate.
+  inversion H; subst. destruct (p_parse_accept _ _ _ _ E) as (e & Hfeed & Hacc).
+  destruct (feed_items (2 * length b + 2)%nat b (sink0 None) p1 s1 e ltac:(lia) Hb ltac:(lia) eq_refl Hfeed Hacc)
+    as (_ & _ & ts & -> & Hwf & Hall).
+  exists ts. rewrite sadd_log. split; [reflexivity|]. split; assumption.
+Qed.
+Print Assumptions C09_cbor_accepted_wf.
+
+(* the same for every chunking of the input *)
+Lemma all_bytes_concat_inv : forall cs, all_bytes (concat cs) = true -> forallb all_bytes cs = true.
+Proof.
+  induction cs as [|c cs IH]; intro H; [reflexivity|].
+  cbn [concat forallb] in *. rewrite all_bytes_app in H. apply andb_true_iff in H as [H1 H2].
+  rewrite H1, (IH H2). reflexivity.
+Qed.
+
+Lemma chunks_as_parse cs : all_bytes (concat cs) = true ->
+  run_chunks None cs = run_parse None (concat cs).
+Proof.
+  intro Hb. pose proof (ChunkTotalProofs.C02_cbor_entry_strongest None cs (all_bytes_concat_inv cs Hb)) as H.
+  unfold ChunkProofs.same_obs_strong in H.
+  destruct (run_parse None (concat cs)) as [o1| | |]; try contradiction.
+  destruct (run_chunks None cs) as [o2| | |]; try contradiction.
+  subst. reflexivity.
+Qed.
+
+Theorem C09_cbor_accepted_wf_chunks : forall cs evs, all_bytes (concat cs) = true ->
+  (zlen (concat cs) <=? MaxInt64) = true ->
+  run_chunks None cs = Ok (evs, nilE) ->
+  exists ts, evs = flat_map flatten ts /\ forallb wf_tree ts = true /\
+             cbor_decode_all (S (length (concat cs))) (concat cs) = Some (map (fun t => cv (value_of t)) ts).
+Proof.
+  intros cs evs Hb Hsz H. rewrite chunks_as_parse in H by exact Hb.
+  apply C09_cbor_accepted_wf; assumption.
+Qed.
+Print Assumptions C09_cbor_accepted_wf_chunks.
+
+(* contrapositive reading: an accepted non-empty input starts with an item the
+   reference accepts - it never says Unsupported / Malformed / Truncated *)
+Corollary C09_cbor_accepted_ref : forall b evs, all_bytes b = true -> (zlen b <=? MaxInt64) = true ->
+  run_parse None b = Ok (evs, nilE) -> b <> [] ->
+  exists v rest, cbor_decode b = RValue v rest.
+Proof.
+  intros b evs Hb Hsz H Hne. destruct (C09_cbor_accepted_wf b evs Hb Hsz H) as (ts & _ & _ & Hall).
+  cbn [cbor_decode_all] in Hall. destruct b as [|x r]; [congruence|].
+  destruct (cbor_decode (x :: r)) as [v rest| | |]; try discriminate. eauto.
+Qed.
+Print Assumptions C09_cbor_accepted_ref.
+
+(* each tree of the stream satisfies the contract monitor *)
+Corollary C09_cbor_accepted_contract : forall b evs, all_bytes b = true -> (zlen b <=? MaxInt64) = true ->
+  run_parse None b = Ok (evs, nilE) ->
+  exists ts, evs = flat_map flatten ts /\ Forall (fun t => contract_ok (flatten t) = true) ts.
+Proof.
+  intros b evs Hb Hsz H. destruct (C09_cbor_accepted_wf b evs Hb Hsz H) as (ts & He & Hwf & _).
+  exists ts. split; [exact He|]. apply Forall_forall. intros t Ht.
+  rewrite contract_flatten. eapply forallb_forall in Hwf; eassumption.
+Qed.
+Print Assumptions C09_cbor_accepted_contract.
+
+(* ---------- C17 for the parser ---------- *)
+(* After every accepted input (one document or several items) the parser is
+   exactly in its initial state: all six fields of cparser0, including the
+   length stack, the token buffer and the error field. *)
+Theorem C17_cbor_parser_idle : forall b s p' s', all_bytes b = true -> (zlen b <=? MaxInt64) = true ->
+  s_fail s = None ->
+  p_parse cparser0 s b = Ok (p', s', nilE) -> p' = cparser0.
+Proof.
+  intros b s p' s' Hb Hsz Hs H. destruct (p_parse_accept _ _ _ _ H) as (e & Hfeed & Hacc).
+  destruct (feed_items (2 * length b + 2)%nat b s p' s' e ltac:(lia) Hb ltac:(lia) Hs Hfeed Hacc) as (Hp & _). exact Hp.
+Qed.
+Print Assumptions C17_cbor_parser_idle.
+
+(* the next document is parsed as by a fresh parser *)
+Corollary C17_cbor_parser_next : forall b s p' s' b2, all_bytes b = true -> (zlen b <=? MaxInt64) = true ->
+  s_fail s = None ->
+  p_parse cparser0 s b = Ok (p', s', nilE) ->
+  p_parse p' s' b2 = p_parse cparser0 s' b2 /\ forall cs, p_writes p' s' cs = p_writes cparser0 s' cs.
+Proof.
+  intros b s p' s' b2 Hb Hsz Hs H. rewrite (C17_cbor_parser_idle b s p' s' Hb Hsz Hs H). auto.
+Qed.
+Print Assumptions C17_cbor_parser_next.
+
+(* what the accepted Parse call did to the visitor *)
+Theorem C17_cbor_parser_doc : forall b s p' s', all_bytes b = true -> (zlen b <=? MaxInt64) = true ->
+  s_fail s = None ->
+  p_parse cparser0 s b = Ok (p', s', nilE) ->
+  p' = cparser0 /\
+  exists ts, s' = sadd s (flat_map flatten ts) /\ forallb wf_tree ts = true /\
+             cbor_decode_all (S (length b)) b = Some (tvals ts).
+Proof.
+  intros b s p' s' Hb Hsz Hs H. destruct (p_parse_accept _ _ _ _ H) as (e & Hfeed & Hacc).
+  destruct (feed_items (2 * length b + 2)%nat b s p' s' e ltac:(lia) Hb ltac:(lia) Hs Hfeed Hacc) as (Hp & _ & Hts).
+  split; assumption.
+Qed.
+
+(* a sequence of Parse calls on one parser; stops at the first error *)
+Fixpoint parse_docs (p : cparser) (s : sink) (docs : list bytes) : res (cparser * sink * Z) :=
+  match docs with
+  | [] => Ok (p, s, nilE)
+  | d :: r =>
+      match p_parse p s d with
+      | Ok (p1, s1, e) => if isnil e then parse_docs p1 s1 r else Ok (p1, s1, e)
+      | x => x
+      end
+  end.
+
+Definition doc_ok (d : bytes) : bool := all_bytes d && (zlen d <=? MaxInt64).
+
+Theorem C17_cbor_parser_docs : forall docs s p' s', forallb doc_ok docs = true -> s_fail s = None ->
+  parse_docs cparser0 s docs = Ok (p', s', nilE) ->
+  p' = cparser0 /\
+  exists tss, s' = sadd s (flat_map (flat_map flatten) tss) /\
+    Forall2 (fun d ts => forallb wf_tree ts = true /\
+                         cbor_decode_all (S (length d)) d = Some (tvals ts)) docs tss.
+Proof.
+  induction docs as [|d r IH]; intros s p' s' Hd Hs H; cbn [parse_docs forallb] in *.
+  - inversion H; subst. split; [reflexivity|]. exists []. cbn [flat_map]. rewrite sadd_nil.
+    split; [reflexivity|constructor].
+  - apply andb_true_iff in Hd as [Hd Hr]. unfold doc_ok in Hd. apply andb_true_iff in Hd as [Hb Hsz].
+    destruct (p_parse cparser0 s d) as [[[p1 s1] e1]| | |] eqn:E; try discriminate.
+    destruct (isnil e1) eqn:Ee.
+    + apply Z.eqb_eq in Ee. subst e1.
+      destruct (C17_cbor_parser_doc d s p1 s1 Hb Hsz Hs E) as (-> & ts & -> & Hwf & Hall).
+      destruct (IH _ p' s' Hr ltac:(rewrite sadd_fail; exact Hs) H) as (Hp & tss & -> & HF).
+      split; [exact Hp|]. exists (ts :: tss). cbn [flat_map]. rewrite sadd_app.
+      split; [reflexivity|]. constructor; [split; assumption|exact HF].
+    + inversion H; subst. discriminate.
+Qed.
+Print Assumptions C17_cbor_parser_docs.
+
+(* streaming entry point: the same after a sequence of Write calls followed by
+   the end-of-input check *)
+Lemma writes_feed : forall cs p s pf sf, ChunkProofs.Inv p ->
+  p_writes p s cs = Ok (pf, sf, nilE) ->
+  ChunkProofs.Feed p s (concat cs) (pf, sf, nilE) /\ finalize pf = nilE.
+Proof.
+  induction cs as [|c cs IH]; intros p s pf sf HI H; cbn [p_writes concat] in *.
+  - injection H as -> -> Hfin. split; [left; auto|exact Hfin].
+  - destruct (p_write p s c) as [[[p1 s1] err]| | |] eqn:E; try discriminate.
+    destruct (ChunkProofs.p_write_Ok _ _ _ _ _ _ E) as (p1' & F & ->).
+    destruct (ChunkProofs.Feed_merge p s c (concat cs) p1' s1 err HI F) as [_ M2].
+    destruct (isnil err) eqn:Ee.
+    + apply Z.eqb_eq in Ee. subst err.
+      assert (HI1 : ChunkProofs.Inv p1') by (eapply ChunkProofs.Feed_inv; eauto).
+      rewrite ChunkProofs.set_err_same in H by apply HI1.
+      destruct (IH _ _ _ _ HI1 H) as (F2 & Hfin).
+      destruct (M2 eq_refl _ F2) as ([[pm sm] em] & F3 & S3).
+      cbn [ChunkProofs.sim] in S3. destruct S3 as (<- & <- & S3). rewrite <- (S3 eq_refl) in F3.
+      split; assumption.
+    + inversion H; subst. discriminate.
+Qed.
+
+Theorem C17_cbor_parser_idle_chunks : forall cs s p' s', all_bytes (concat cs) = true ->
+  (zlen (concat cs) <=? MaxInt64) = true -> s_fail s = None ->
+  p_writes cparser0 s cs = Ok (p', s', nilE) ->
+  p' = cparser0 /\
+  exists ts, s' = sadd s (flat_map flatten ts) /\ forallb wf_tree ts = true /\
+             cbor_decode_all (S (length (concat cs))) (concat cs) = Some (tvals ts).
+Proof.
+  intros cs s p' s' Hb Hsz Hs H.
+  destruct (writes_feed cs cparser0 s p' s' ChunkProofs.Inv0 H) as (F & Hfin).
+  set (b := concat cs) in *.
+  destruct (ParseSafety.feed_ok (S (length b)) cparser0 s b ParseSafety.Inv0 ParseSafety.rank0 Hb ltac:(lia))
+    as (p1 & s1 & e1 & Hfeed & _).
+  pose proof (ChunkProofs.Feed_det _ _ _ _ _ F (ChunkProofs.feed_sound _ _ _ _ _ Hfeed)) as Heq.
+  inversion Heq; subst p1 s1 e1.
+  destruct (feed_items (S (length b)) b s p' s' nilE ltac:(lia) Hb ltac:(lia) Hs Hfeed Hfin) as (Hp & _ & Hts).
+  split; assumption.
+Qed.
+Print Assumptions C17_cbor_parser_idle_chunks.
+
+(* ====================================================================== *)
+(* Part C: a decoded value is not larger than the bytes it was decoded from *)
+(* ====================================================================== *)
+
+Fixpoint cv_size (v : cvalue) : nat :=
+  match v with
+  | CStr s => S (length s)
+  | CArr vs => S (list_sum (map cv_size vs))
+  | CObj kvs => S (list_sum (map (fun kv : bytes * cvalue => S (length (fst kv)) + cv_size (snd kv))%nat kvs))
+  | _ => 1%nat
+  end.
+
+Lemma cv_size_pos v : (1 <= cv_size v)%nat.
+Proof. destruct v; cbn [cv_size]; lia. Qed.
+
+Lemma list_sum_cons x l : list_sum (x :: l) = (x + list_sum l)%nat.
+Proof. reflexivity. Qed.
+
+Lemma list_sum_in {A} (f : A -> nat) l x : In x l -> (f x <= list_sum (map f l))%nat.
+Proof.
+  induction l as [|y l IH]; intro H; [destruct H|]. cbn [map]. rewrite list_sum_cons.
+  destruct H as [->|H]; [lia|]. specialize (IH H). lia.
+Qed.
+
+Lemma list_sum_len {A} (f : A -> nat) l : (forall x, 1 <= f x)%nat ->
+  (length l <= list_sum (map f l))%nat.
+Proof.
+  intro Hf. induction l as [|y l IH]; [cbn; lia|]. cbn [map length]. rewrite list_sum_cons.
+  specialize (Hf y). lia.
+Qed.
+
+Lemma list_sum_map_app {A} (f : A -> nat) a b :
+  list_sum (map f (a ++ b)) = (list_sum (map f a) + list_sum (map f b))%nat.
+Proof. rewrite map_app, list_sum_app. reflexivity. Qed.
+
+Definition size_spec (f : nat) : Prop :=
+  forall b v rest, cbor_ref f b = RValue v rest -> (cv_size v + length rest <= length b)%nat.
+
+Lemma take_length k r a r' : take k r = Some (a, r') -> length r = (length a + length r')%nat.
+Proof.
+  intro H. apply take_some in H as (_ & _ & _ & _ & H & _). rewrite H at 1. apply app_length.
+Qed.
+
+Lemma read_arg_len minor r :
+  match read_arg minor r with
+  | ArgVal _ r1 => (length r1 <= length r)%nat
+  | ArgIndef r1 => r1 = r
+  | _ => True
+  end.
+Proof.
+  unfold read_arg. destruct (minor <? 24); [lia|].
+  destruct (minor <=? 27).
+  - destruct (take (2 ^ (minor - 24)) r) as [[a r']|] eqn:E; [|exact I].
+    apply take_length in E. lia.
+  - destruct (minor =? 31); [reflexivity|exact I].
+Qed.
+
+Lemma simple_size minor r v rest : ref_simple minor r = RValue v rest ->
+  (cv_size v + length rest <= S (length r))%nat.
+Proof.
+  unfold ref_simple. intro H.
+  destruct (minor =? 20); [inversion H; subst; cbn [cv_size]; lia|].
+  destruct (minor =? 21); [inversion H; subst; cbn [cv_size]; lia|].
+  destruct (minor =? 22); [inversion H; subst; cbn [cv_size]; lia|].
+  destruct (minor =? 23); [inversion H; subst; cbn [cv_size]; lia|].
+  destruct (minor =? 26).
+  { destruct (take 4 r) as [[a r']|] eqn:E; [|discriminate]. apply take_length in E.
+    inversion H; subst. cbn [cv_size]. lia. }
+  destruct (minor =? 27).
+  { destruct (take 8 r) as [[a r']|] eqn:E; [|discriminate]. apply take_length in E.
+    inversion H; subst. cbn [cv_size]. lia. }
+  destruct (minor =? 31); [discriminate|].
+  destruct ((28 <=? minor) && (minor <=? 30)); discriminate.
+Qed.
+
+Lemma bytes_arr_size a : list_sum (map cv_size (map (fun x => CNum (CInt x)) a)) = length a.
+Proof. induction a as [|x a IH]; [reflexivity|]. cbn [map cv_size length]. rewrite list_sum_cons. lia. Qed.
+
+Lemma items_def_size f : size_spec f -> forall g n b acc v rest,
+  items_def f g n b acc = RValue v rest ->
+  exists vs, v = CArr (rev acc ++ vs) /\
+             (list_sum (map cv_size vs) + length rest <= length b)%nat.
+Proof.
+  intro Hf. induction g as [|g IH]; intros n b acc v rest H; rewrite items_def_eq in H.
+  - destruct (n <=? 0); [|discriminate]. inversion H; subst. exists []. rewrite app_nil_r.
+    split; [reflexivity|cbn; lia].
+  - destruct (n <=? 0).
+    { inversion H; subst. exists []. rewrite app_nil_r. split; [reflexivity|cbn; lia]. }
+    destruct (cbor_ref f b) as [v1 r1| | |] eqn:E; try discriminate.
+    apply Hf in E. destruct (IH _ _ _ _ _ H) as (vs & -> & Hsz).
+    exists (v1 :: vs). cbn [rev]. rewrite <- app_assoc. cbn [app map]. rewrite list_sum_cons.
+    split; [reflexivity|lia].
+Qed.
+
+Lemma items_ind_size f : size_spec f -> forall g b acc v rest,
+  items_ind f g b acc = RValue v rest ->
+  exists vs, v = CArr (rev acc ++ vs) /\
+             (list_sum (map cv_size vs) + length rest <= length b)%nat.
+Proof.
+  intro Hf. induction g as [|g IH]; intros b acc v rest H.
+  - destruct b; discriminate H.
+  - destruct b as [|x r]; [rewrite items_ind_S in H; discriminate|].
+    destruct (Z.eq_dec x 255) as [->|Hx].
+    + rewrite items_ind_S in H. inversion H; subst. exists []. rewrite app_nil_r.
+      split; [reflexivity|cbn; lia].
+    + rewrite items_ind_other in H by exact Hx.
+      destruct (cbor_ref f (x :: r)) as [v1 r1| | |] eqn:E; try discriminate.
+      apply Hf in E. destruct (IH _ _ _ _ H) as (vs & -> & Hsz).
+      exists (v1 :: vs). cbn [rev]. rewrite <- app_assoc. cbn [app map]. rewrite list_sum_cons.
+      split; [reflexivity|lia].
+Qed.
+
+Notation pairsz := (fun kv : bytes * cvalue => (S (length (fst kv)) + cv_size (snd kv))%nat).
+
+Lemma pairs_def_size f : size_spec f -> forall g n b acc v rest,
+  pairs_def f g n b acc = RValue v rest ->
+  exists kvs, v = CObj (rev acc ++ kvs) /\
+              (list_sum (map pairsz kvs) + length rest <= length b)%nat.
+Proof.
+  intro Hf. induction g as [|g IH]; intros n b acc v rest H; rewrite pairs_def_eq in H.
+  - destruct (n <=? 0); [|discriminate]. inversion H; subst. exists []. rewrite app_nil_r.
+    split; [reflexivity|cbn; lia].
+  - destruct (n <=? 0).
+    { inversion H; subst. exists []. rewrite app_nil_r. split; [reflexivity|cbn; lia]. }
+    destruct b as [|kb b']; [discriminate|].
+    destruct (negb (kb / 32 =? 3)).
+    { destruct ((kb / 32 =? 7) && negb (kb mod 32 <? 28)); discriminate. }
+    destruct (cbor_ref f (kb :: b')) as [vk r1| | |] eqn:Ek; try discriminate.
+    destruct vk as [| |k| | |]; try discriminate.
+    destruct (cbor_ref f r1) as [v1 r2| | |] eqn:Ev; try discriminate.
+    apply Hf in Ek. apply Hf in Ev. cbn [cv_size] in Ek.
+    destruct (IH _ _ _ _ _ H) as (kvs & -> & Hsz).
+    exists ((k, v1) :: kvs). cbn [rev]. rewrite <- app_assoc. cbn [app map fst snd]. rewrite list_sum_cons.
+    split; [reflexivity|lia].
+Qed.
+
+Lemma pairs_ind_size f : size_spec f -> forall g b acc v rest,
+  pairs_ind f g b acc = RValue v rest ->
+  exists kvs, v = CObj (rev acc ++ kvs) /\
+              (list_sum (map pairsz kvs) + length rest <= length b)%nat.
+Proof.
+  intro Hf. induction g as [|g IH]; intros b acc v rest H.
+  - destruct b; discriminate H.
+  - destruct b as [|kb b']; [rewrite pairs_ind_S in H; discriminate|].
+    destruct (Z.eq_dec kb 255) as [->|Hx].
+    + rewrite pairs_ind_S in H. inversion H; subst. exists []. rewrite app_nil_r.
+      split; [reflexivity|cbn; lia].
+    + rewrite pairs_ind_other in H by exact Hx.
+      destruct (negb (kb / 32 =? 3)).
+      { destruct ((kb / 32 =? 7) && negb (kb mod 32 <? 28)); discriminate. }
+      destruct (cbor_ref f (kb :: b')) as [vk r1| | |] eqn:Ek; try discriminate.
+      destruct vk as [| |k| | |]; try discriminate.
+      destruct (cbor_ref f r1) as [v1 r2| | |] eqn:Ev; try discriminate.
+      apply Hf in Ek. apply Hf in Ev. cbn [cv_size] in Ek.
+      destruct (IH _ _ _ _ H) as (kvs & -> & Hsz).
+      exists ((k, v1) :: kvs). cbn [rev]. rewrite <- app_assoc. cbn [app map fst snd]. rewrite list_sum_cons.
+      split; [reflexivity|lia].
+Qed.
+
+Theorem ref_size : forall f, size_spec f.
+Proof.
+  induction f as [|f IH]; intros b v rest H; [rewrite cbor_ref_O in H; discriminate|].
+  destruct b as [|ib r]; [rewrite cbor_ref_nil in H; discriminate|].
+  rewrite cbor_ref_S in H. unfold ref_body in H. cbv zeta in H. cbn [length].
+  destruct (ib / 32 =? 7).
+  { apply simple_size in H. lia. }
+  destruct (ib / 32 =? 6); [discriminate|].
+  pose proof (read_arg_len (ib mod 32) r) as Ha.
+  destruct (read_arg (ib mod 32) r) as [n r1|r1| |]; try discriminate.
+  - destruct (ib / 32 =? 0). { inversion H; subst. cbn [cv_size]. lia. }
+    destruct (ib / 32 =? 1).
+    { destruct (n <? 2 ^ 63); [|discriminate]. inversion H; subst. cbn [cv_size]. lia. }
+    destruct (ib / 32 =? 2).
+    { destruct (take n r1) as [[a r']|] eqn:Et; [|discriminate]. apply take_length in Et.
+      inversion H; subst. cbn [cv_size]. rewrite bytes_arr_size. lia. }
+    destruct (ib / 32 =? 3).
+    { destruct (take n r1) as [[a r']|] eqn:Et; [|discriminate]. apply take_length in Et.
+      inversion H; subst. cbn [cv_size]. lia. }
+    destruct (ib / 32 =? 4).
+    + destruct (items_def_size f IH _ _ _ _ _ _ H) as (vs & -> & Hsz). cbn [rev app cv_size]. lia.
+    + destruct (pairs_def_size f IH _ _ _ _ _ _ H) as (vs & -> & Hsz). cbn [rev app cv_size]. lia.
+  - subst r1.
+    destruct ((ib / 32 =? 0) || (ib / 32 =? 1)); [discriminate|].
+    destruct ((ib / 32 =? 2) || (ib / 32 =? 3)); [discriminate|].
+    destruct (ib / 32 =? 4).
+    + destruct (items_ind_size f IH _ _ _ _ _ H) as (vs & -> & Hsz). cbn [rev app cv_size]. lia.
+    + destruct (pairs_ind_size f IH _ _ _ _ _ H) as (vs & -> & Hsz). cbn [rev app cv_size]. lia.
+Qed.
+Print Assumptions ref_size.
+
+(* a well-formed tree whose value is small has small announced lengths *)
+Lemma small_of_size : forall t N, wf_tree t = true ->
+  (cv_size (cv (value_of t)) <= N)%nat -> Z.of_nat N < 2 ^ 64 -> tree_small t = true.
+Proof.
+  induction t as [s r|len bt es IH|len bt ms IH|bt es|bt ms] using tree_ind';
+    intros N Hw Hsz HN.
+  - destruct s as [|b|s|k z]; try reflexivity.
+    cbn [RoundtripProofs.tree_small RoundtripProofs.scalar_small value_of scalar_value cv cv_size] in *.
+    unfold zlen. lia.
+  - rewrite wf_arr in Hw. apply andb_true_iff in Hw as [Hw Hwf]. apply andb_true_iff in Hw as [Hlen _].
+    cbn [value_of cv cv_size] in Hsz. rewrite !map_map in Hsz.
+    pose proof (list_sum_len (fun x => cv_size (cv (value_of x))) es ltac:(intro; apply cv_size_pos)) as Hl.
+    cbn [RoundtripProofs.tree_small]. apply andb_true_iff. split.
+    + unfold len_ok, zlen in Hlen. lia.
+    + apply forallb_forall. intros x Hx. rewrite Forall_forall in IH.
+      apply (IH x Hx N); [eapply forallb_forall in Hwf; eassumption| |exact HN].
+      pose proof (list_sum_in (fun x => cv_size (cv (value_of x))) es x Hx). cbn beta in *. lia.
+  - rewrite wf_obj in Hw. apply andb_true_iff in Hw as [Hw Hwf]. apply andb_true_iff in Hw as [Hlen _].
+    cbn [value_of cv cv_size] in Hsz. rewrite !map_map in Hsz. cbn [fst snd] in Hsz.
+    set (g := fun m : bytes * bool * tree => (S (length (fst (fst m))) + cv_size (cv (value_of (snd m))))%nat) in *.
+    pose proof (list_sum_len g ms ltac:(intro; unfold g; lia)) as Hl.
+    cbn [RoundtripProofs.tree_small]. apply andb_true_iff. split.
+    + unfold len_ok, zlen in Hlen. lia.
+    + apply forallb_forall. intros [[k r] e] Hx. rewrite Forall_forall in IH.
+      pose proof (list_sum_in g ms _ Hx) as Hin. unfold g in Hin at 1. cbn [fst snd] in Hin |- *.
+      apply andb_true_iff. split; [unfold zlen; lia|].
+      apply (IH _ Hx N); cbn [snd]; [|lia|exact HN].
+      eapply forallb_forall in Hwf; [|exact Hx]. apply andb_true_iff in Hwf as [_ Hwf]. exact Hwf.
+  - cbn [value_of cv cv_size] in Hsz. rewrite !map_map in Hsz.
+    pose proof (list_sum_len (fun x => cv_size (cv (scalar_value x))) es ltac:(intro; apply cv_size_pos)) as Hl.
+    cbn [RoundtripProofs.tree_small]. apply andb_true_iff. split; [unfold zlen; lia|].
+    apply forallb_forall. intros x Hx.
+    pose proof (list_sum_in (fun x => cv_size (cv (scalar_value x))) es x Hx) as Hin. cbn beta in Hin.
+    destruct x as [|b|s|k z]; try reflexivity.
+    cbn [RoundtripProofs.scalar_small scalar_value cv cv_size] in *. unfold zlen. lia.
+  - cbn [value_of cv cv_size] in Hsz. rewrite !map_map in Hsz. cbn [fst snd] in Hsz.
+    set (g := fun m : bytes * scalar => (S (length (fst m)) + cv_size (cv (scalar_value (snd m))))%nat) in *.
+    pose proof (list_sum_len g ms ltac:(intro; unfold g; lia)) as Hl.
+    cbn [RoundtripProofs.tree_small]. apply andb_true_iff. split; [unfold zlen; lia|].
+    apply forallb_forall. intros [k x] Hx.
+    pose proof (list_sum_in g ms _ Hx) as Hin. unfold g in Hin at 1. cbn [fst snd] in Hin |- *.
+    apply andb_true_iff. split; [unfold zlen; lia|].
+    destruct x as [|b|s|kd z]; try reflexivity.
+    cbn [RoundtripProofs.scalar_small scalar_value cv cv_size] in *. unfold zlen. lia.
+Qed.
